@@ -227,6 +227,15 @@ def independence(ck, prefix, config, jobs, orders=('given', 'reversed', 'last-ar
                 ck.violation('%s:%s:result-depends-on-call-order' % (prefix, name),
                              '%s returns %r when called in %s order and %r in the given order' % (name, float(r2.v[k]), o, float(ref.v[idx][k])),
                              dict(function=name, ints=q['i'][:3].tolist(), doubles=q['d'][:4].tolist(), order=o, config=config))
+        # the calls as user code writes them (direct call, local error slot tested right after it, compiled -O2 against the public header)
+        r6 = Lib(config, shuffle=False, env={'XV_DIRECT': '1'}).run(req, strs); n += len(req)
+        bad = np.nonzero(((r6.v.view('u8') != ref.v.view('u8')) & ~(np.isnan(r6.v) & np.isnan(ref.v))) | ((r6.status & 1) != (ref.status & 1)))[0]
+        for k in bad[:2]:
+            q = req[k]
+            ck.violation('%s:%s:direct-call-from-optimised-user-code-differs' % (prefix, name),
+                         '%s called directly (local error slot, -O2, public header) gives %r / error seen: %s; through the dispatch table %r / error: %s' % (
+                             name, float(r6.v[k]), bool(r6.status[k] & 1), float(ref.v[k]), ref.msg(k) if ref.err[k] else 'none'),
+                         dict(function=name, ints=q['i'][:3].tolist(), doubles=q['d'][:4].tolist(), config=config))
         # the library as the project's own build system makes it (meson: its compiler arguments and options, not the monitor's): same bits
         try:
             r5 = Lib(config, 'meson', shuffle=False).run(req, strs); n += len(req)
